@@ -45,7 +45,7 @@ fn main() {
                     let n = hist["ops"].as_array().map(|a| a.len()).unwrap_or(0);
                     writeln!(out, "{}", serde_json::json!({"h": hist["h"], "i": n + 1, "op": "abort", "b": 0, "calls": [], "q": 0, "t": 0, "ret": "abort",
                         "panic": format!("process aborted (status {status}): panic while panicking"), "pipe": 0, "failed": 0,
-                        "frac": -1, "shown": [], "get": {"has": false, "pos": [0,0,0,0,0], "pos_s": 0, "len": [0,0,0,0,0], "len_s": 0, "haslen": false, "msg": [], "prefix": [], "fin": false}})).unwrap();
+                        "frac": -1, "shown": [], "get": {"has": false, "pos": [0,0,0,0,0], "pos_s": 0, "len": [0,0,0,0,0], "len_s": 0, "haslen": false, "msg": [], "prefix": [], "fin": false, "elapsed_us": 0}})).unwrap();
                 }
             }
         }
